@@ -264,6 +264,37 @@ func c14ParseErrorOf(text string) (msg string) {
 	return m
 }
 
+// c14ExpectFails checks Stmt.Expect against an evaluation; "" = holds.
+func c14ExpectFails(expect string, e c14Eval) string {
+	if e.err {
+		return "the statement fails"
+	}
+	lines := strings.Split(e.rows, "\n")[1:] // first line is the column count
+	switch expect {
+	case "ok":
+		return ""
+	case "true":
+		if len(lines) != 1 || lines[0] != "I1" {
+			return fmt.Sprintf("result is %q, not true", strings.Join(lines, " / "))
+		}
+	case "distinct-cols":
+		if len(lines) == 0 || lines[0] == "" {
+			return "no result row"
+		}
+		for _, l := range lines {
+			cells := strings.Split(l, "|")
+			for i := range cells {
+				for j := i + 1; j < len(cells); j++ {
+					if cells[i] == cells[j] {
+						return fmt.Sprintf("columns %d and %d of the result are both %s", i+1, j+1, cells[i])
+					}
+				}
+			}
+		}
+	}
+	return ""
+}
+
 type c14Finding struct {
 	rank   int
 	class  string
@@ -331,7 +362,14 @@ func c14Run(c *core.Ctx, raw json.RawMessage) {
 		time.Sleep(time.Duration(sc.GapMs) * time.Millisecond)
 		t0 := time.Now()
 		ps := []*proto.Statement{{Sql: st.SQL}}
-		if err := rsql.Process(ps, true, true); err != nil {
+		if st.Expect != "" {
+			// statements whose several random calls must be independent are rewritten
+			// with the normal seeded draws, not with the constant ones
+			seeded.Unfix()
+		}
+		perr := rsql.Process(ps, true, true)
+		seeded.Fix(sqlhFixedDraw)
+		if err := perr; err != nil {
 			msg := err.Error()
 			if len(msg) > 80 {
 				msg = msg[:80]
@@ -420,6 +458,25 @@ func c14Run(c *core.Ctx, raw json.RawMessage) {
 		if st.HasFeat("returning") && rw != st.SQL && !strings.Contains(strings.ToLower(sqlhStripSQL(rw)), "returning") {
 			retDropped = true
 			add(6, "returning-dropped", "the RETURNING clause of the statement is missing from the rewritten text: %s", desc())
+		}
+		if st.Expect != "" {
+			// independence of the substituted values: what holds for the original
+			// because its random calls are independent draws must hold for the rewritten text
+			c.Probe("multi_random_stmts")
+			orig, err := c14EvalAt(plain, st, st.SQL, t0)
+			if err != nil {
+				c.Discard("oracle-db eval: " + err.Error())
+				return
+			}
+			if why := c14ExpectFails(st.Expect, orig); why != "" {
+				c.Probe("multi_random_expectation_not_met_by_original")
+				continue
+			}
+			if why := c14ExpectFails(st.Expect, e1); why != "" {
+				add(2, "meaning-changed", "the values substituted for the %d random()/randomblob() calls of one statement are not independent of each other (%s; the un-rewritten statement gives %q): %s",
+					st.ND, why, strings.ReplaceAll(orig.rows, "\n", " / "), desc())
+			}
+			continue
 		}
 		// faithfulness: equals the original evaluated at T0 (within the literal's precision)
 		eo, err := c14EvalAt(fixed, st, st.SQL, t0)
